@@ -446,6 +446,7 @@ def check_jpd(case, out):
     out.sample = {"kind": case["kind"], "vars": V, "card": card, "order": order}
 
 
+THOROUGH_SCALE = 6  # thorough-tier example counts are n["thorough"] x this (one thorough run then takes roughly 5-10 minutes on 16 cores)
 SUBCHECKS = [
     Sub("iequivalent", check_iequiv, enumerate=_enum_pairs, shards={"quick": 8, "thorough": 16},
         doc="DAG.is_iequivalent vs equality of (skeleton, v-structures) on pairs of 4-node DAGs"),
